@@ -463,11 +463,20 @@ def evolve_events(fam, g, psi, order, src, rng, tree, tag, heavy):
     return out
 
 
+def _limit_memory():
+    # pool initializer: one job may not take more than 8 GB of address space (a few cluster metrics on the largest lattices would otherwise invite the OOM killer, which
+    # takes the whole check with it); such a job ends with MemoryError and is reported as skipped
+    import resource
+    resource.setrlimit(resource.RLIMIT_AS, (8 << 30, 8 << 30))
+
+
 def run(args):
     try:
         return run_inner(args)
     except Machinery as ex:
         return [{'op': 'machinery', 'what': str(ex)}]
+    except (MemoryError, SystemError) as ex:
+        return [{'op': 'verdict', 'what': 'job %s skipped: needs more than 8 GB (%s)' % (list(args), type(ex).__name__), 'verdicts': {'skipped_too_large_for_the_sandbox': True}}]
 
 
 def run_inner(args):
@@ -484,7 +493,8 @@ def run_inner(args):
     tag = '%s/%s %sx%s seed=%d%s' % (fam.kind, fam.sym, dims[0], dims[1], seed, ' tree' if tree is not None else '')
     if N * fam.nm > 9:
         # too many amplitudes to register: bond metrics only (the state is still a circuit state)
-        psi, order, ev, cur = build_state(fam, g, rng, rng.randint(8, 14), tree, tag, register=False)
+        # (few entangled bonds on the largest lattices: the NNN++ cluster of a 3x4 .. 4x4 lattice is the whole lattice, in two layers)
+        psi, order, ev, cur = build_state(fam, g, rng, rng.randint(8, 14) if N * fam.nm <= 12 else rng.randint(4, 7), tree, tag, register=False)
         return [{'op': 'verdict', 'what': tag + ' metric-only state built', 'verdicts': {'built': True}}] + metric_events(g, psi, rng, tree, tag, heavy)
     ngates = rng.randint(2, 5) if N <= 4 else rng.randint(4, 9) if N < 9 else rng.randint(7, 12)
     psi, order, ev, cur = build_state(fam, g, rng, ngates, tree, tag)
@@ -573,6 +583,35 @@ def cover_inner(args):
             for (s, dn), T in base[k].items():
                 deps = [list(q) for q in sites if differs(T, pert[q][k][(s, dn)])]
                 out.append({'op': 'cover', 'what': '%s k=%d tensor %s of %s' % (tag, k, dn, s), 'model': 'ctm', 'dims': [Nx, Ny], 'k': k, 'site': list(s), 'dn': dn, 'deps': deps})
+    elif model == 'ctmu':
+        # EnvCTM.update_ (projector moves) on a finite lattice from reset_('eye'): after which move sequences is which measured value exact?  (CtmMoves.tla)
+        import yastn
+        leg = psi[fpeps.Site(0, 0)].get_legs(4)
+        O = yastn.rand(cfg, legs=[leg, leg.conj()], dtype='complex128')
+        P = yastn.rand(cfg, legs=[leg, leg.conj()], dtype='complex128')
+        ref = fpeps.EnvCTM(psi, init='eye')
+        for _ in range(max(Nx, Ny)):
+            ref.expand_outward_()
+        hb = [(s, (s[0], s[1] + 1)) for s in sites if s[1] + 1 < Ny]
+        vb = [(s, (s[0] + 1, s[1])) for s in sites if s[0] + 1 < Nx]
+        seqs = [list(p) for p in itertools.permutations('lrtb')][seed % 6::6] + [list('hv') * n for n in range(1, max(Nx, Ny) + 1)] + [list('vh') * max(1, max(Nx, Ny) - 1)]
+        for _ in range(sub or 8):
+            seqs.append([rng.choice('hvlrtb') for _ in range(rng.randint(1, 5))])
+        unclear = 0
+        for mv in seqs:
+            e = fpeps.EnvCTM(psi, init='eye')
+            e.update_(opts_svd={'D_total': 256, 'tol': 1e-14}, moves=''.join(mv))
+            obs = [('1site', s, e.measure_1site(O, site=fpeps.Site(*s)), ref.measure_1site(O, site=fpeps.Site(*s))) for s in sites]
+            obs += [('nnh', a, e.measure_nn(O, P, bond=(fpeps.Site(*a), fpeps.Site(*b))), ref.measure_nn(O, P, bond=(fpeps.Site(*a), fpeps.Site(*b)))) for a, b in hb]
+            obs += [('nnv', a, e.measure_nn(O, P, bond=(fpeps.Site(*a), fpeps.Site(*b))), ref.measure_nn(O, P, bond=(fpeps.Site(*a), fpeps.Site(*b)))) for a, b in vb]
+            for kind, s, v, r in obs:
+                err = abs(complex(v) - complex(r)) / max(abs(complex(r)), 1e-3)
+                if 1e-8 < err < 1e-5 or not np.isfinite(err):
+                    unclear += 1        # neither clearly exact nor clearly different (generic tensors: never seen)
+                    continue
+                out.append({'op': 'ctmu', 'what': '%s moves=%s %s at %s err=%.1e' % (tag, ''.join(mv), kind, s, err), 'dims': [Nx, Ny], 'moves': mv, 'kind': kind, 'site': list(s),
+                            'exact': bool(err <= 1e-8)})
+        out.append({'op': 'verdict', 'what': '%s unclear=%d' % (tag, unclear), 'verdicts': {'exactness_classified': unclear <= len(seqs)}})
     elif model == 'bm':
         opts = {'D_total': 4096, 'tol': 1e-14}
         ov = rng.choice(OPTS_VAR)
@@ -671,6 +710,8 @@ def main(tier, seed, replay=None):
                        'evolution_step_ with non-binding truncation; dependency probes; non-trivial = measure event with a non-zero expected numerator, metric event, evolve event, cover event')
     r = tlc_ok('EnvCoverMC', 'EnvCoverMC.cfg', workers=4, timeout=900)
     rep.add_tlc('EnvCoverMC (coverage of CTM / boundary-MPS / NTU objects, lattices up to 4x4, 5 expansions)', r)
+    r = tlc_ok('CtmMovesMC', 'CtmMovesMC.cfg', workers=4, timeout=900)
+    rep.add_tlc('CtmMovesMC (every sequence of EnvCTM.update_ moves h, v, l, r, t, b on lattices up to 4x4; one sweep of the four sequential moves in any order is exact)', r)
     r = tlc_ok('BpCoverMC', 'BpCoverMC.cfg' if tier == 'quick' else 'BpCoverMC_forest.cfg', workers=8, timeout=2400, mem='6g')
     rep.add_tlc('BpCoverMC (belief-propagation messages in any order of single updates: %s)' % ('every entanglement graph of 1x3 and 2x2, cycles included' if tier == 'quick' else 'every forest of 1x4, 2x3, 3x2'), r)
     r = tlc_ok('FockMC', 'FockMC.cfg', workers=4, timeout=600)
@@ -684,15 +725,19 @@ def main(tier, seed, replay=None):
         n = 48 if tier == 'quick' else 640
         jr = random.Random(seed * 7919 + 1)
         jobs = [(i % nF, lattice_for(i % nF, i // nF + seed, jr), seed * 1000003 + i, tier) for i in range(n)]
-        jobs += [(i % nF, d, seed * 1000003 + 5000 + i, tier) for i, d in enumerate([(3, 4), (4, 3)] if tier == 'quick' else [(3, 4), (4, 3), (4, 4), (3, 5), (5, 3), (2, 5)] * 4)]
+        # larger lattices, bond metrics only (no registered state); two-mode families stay at <= 10 sites (to_tensor() of the circuit state is still needed for its norm)
+        big = [(3, 4), (4, 3)] if tier == 'quick' else [(3, 4), (4, 3), (4, 4), (3, 5), (5, 3), (2, 5)] * 4
+        jobs += [(i % nF, d if pepsx.Family(*pepsx.FAMILIES[i % nF]).nm == 1 else [(2, 5), (5, 2), (2, 4)][i % 3], seed * 1000003 + 5000 + i, tier) for i, d in enumerate(big)]
         if tier == 'quick':
             cjobs = [((2, 3), 'ctm', seed, 0), ((3, 3), 'ctm', seed + 1, 0), ((3, 2), 'bm', seed, 0), ((3, 3), 'bm', seed + 1, 0), ((3, 3), 'ntu', seed, 4), ((2, 4), 'ntu', seed + 1, 3), ((4, 4), 'ntu', seed + 2, 2),
-                     ((2, 3), 'bp', seed, 0), ((3, 3), 'bp', seed + 1, 0), ((1, 4), 'bp', seed + 2, 0)]
+                     ((2, 3), 'bp', seed, 0), ((3, 3), 'bp', seed + 1, 0), ((1, 4), 'bp', seed + 2, 0),
+                     ((2, 3), 'ctmu', seed, 6), ((3, 3), 'ctmu', seed + 1, 5), ((3, 2), 'ctmu', seed + 2, 6), ((1, 4), 'ctmu', seed + 3, 6)]
         else:
             cjobs = [(d, 'ctm', seed + i, 0) for i, d in enumerate(LATTICES + [(3, 4), (4, 4)])] + [(d, 'bm', seed + i, 0) for i, d in enumerate(LATTICES + [(3, 4), (4, 4)])] \
                 + [(d, 'ntu', seed + i, 0) for i, d in enumerate([(2, 2), (2, 3), (3, 2), (3, 3), (2, 4), (4, 2), (1, 4), (4, 1), (3, 4), (4, 3), (4, 4), (4, 5), (5, 4)])] \
-                + [(d, 'bp', seed + 7 * i + j, 0) for i, d in enumerate(LATTICES + [(3, 4), (4, 4)]) for j in range(3)]
-    with ProcessPoolExecutor(max_workers=15) as ex:
+                + [(d, 'bp', seed + 7 * i + j, 0) for i, d in enumerate(LATTICES + [(3, 4), (4, 4)]) for j in range(3)] \
+                + [(d, 'ctmu', seed + 11 * i, 12) for i, d in enumerate(LATTICES + [(3, 4), (4, 3)])]
+    with ProcessPoolExecutor(max_workers=15, initializer=_limit_memory) as ex:
         fut = [ex.submit(cover_run, j) for j in cjobs]
         results = list(ex.map(run, jobs, chunksize=1))
         cresults = [f.result() for f in fut]
@@ -713,7 +758,7 @@ def main(tier, seed, replay=None):
     controls = []
     if not replay:
         import copy
-        for kind in ('measure', 'cover', 'metric', 'evolve', 'bmkeys'):
+        for kind in ('measure', 'cover', 'metric', 'evolve', 'bmkeys', 'ctmu'):
             for t in traces:
                 idx = [i for i, e in enumerate(t['ev']) if e['op'] == kind and (kind != 'measure' or e['obs'])]
                 if not idx:
@@ -724,6 +769,8 @@ def main(tier, seed, replay=None):
                     e['obs'][-1][1] += 1
                 elif kind == 'cover':
                     e['deps'] = e['deps'][:-1] if e['deps'] else [[0, 0]]
+                elif kind == 'ctmu':
+                    e['exact'] = not e['exact']
                 elif kind == 'metric':
                     e['mineig'] = -1000
                 elif kind == 'evolve':
@@ -753,7 +800,8 @@ def main(tier, seed, replay=None):
     rep.cov['evaluations'] = len(evs)
     ms = [e for e in evs if e['op'] == 'measure']
     nz = [e for e in ms if any(o[1] or o[2] for o in e['obs'])]
-    rep.cov['distinct_nontrivial'] = len(nz) + sum(1 for e in evs if e['op'] in ('metric', 'evolve', 'cover'))
+    rep.cov['parts']['jobs_skipped_for_memory'] = [e['what'] for e in evs if e['op'] == 'verdict' and 'skipped_too_large_for_the_sandbox' in e['verdicts']]
+    rep.cov['distinct_nontrivial'] = len(nz) + sum(1 for e in evs if e['op'] in ('metric', 'evolve', 'cover', 'ctmu'))
 
     def cnt(sub, pool=None):
         return sum(1 for e in (pool if pool is not None else ms) for o in e['obs'] if sub in o[0])
@@ -766,6 +814,7 @@ def main(tier, seed, replay=None):
         'identity_measured': sum(1 for e in ms if not e['terms'][0]['ops']), 'words_of_3_or_4_operators': sum(1 for e in ms if len(e['terms'][0]['ops']) >= 3),
         'metric_events': {w: sum(1 for e in evs if e['op'] == 'metric' and ('ntu[%s]' % w) in e['what']) for w in WHICH} | {'bp': sum(1 for e in evs if e['op'] == 'metric' and ' bp ' in e['what'])},
         'evolve_events': sum(1 for e in evs if e['op'] == 'evolve'), 'cover_events': sum(1 for e in evs if e['op'] == 'cover'),
+        'ctm_update_move_events (exact / not exact as the model says)': [sum(1 for e in evs if e['op'] == 'ctmu' and e['exact']), sum(1 for e in evs if e['op'] == 'ctmu' and not e['exact'])],
         'measure_function_raised': sum(1 for e in evs if e['op'] == 'verdict' and 'measure_function_returns' in e['verdicts']),
         'lattices': sorted(set(t['ev'][0]['what'].split()[1] for t in traces if t['job'][0] not in ('cover', 'canonical-zero-metric'))),
         'identically_zero_metrics': sum(1 for e in evs if e['op'] == 'metric' and 'ZERO-METRIC' in e['what'])})
